@@ -411,6 +411,9 @@ def errors(g, thorough, count):
         ("mov ax, 1", "mov ds, al"), ("mov ax, 1", "mov es, bh"), ("mov ax, 1", "mov al, ds"), ("mov ax, 1", "mov byte [bx], ds"), ("mov ax, 1", "xchg ax, bl"),
         ("mov ax, 1", "add al, bx"), ("mov ax, 1", "push ah"), ("mov ax, 1", "pop bl"), ("mov ax, 1", "lea al, word [bx]"), ("mov ax, 1", "mul 5"),
         ("mov ax, 1", "shl ax, bl"), ("mov ax, 1", "cmp byte [bx], byte [si]"), ("mov ax, 1", "mov cs, 5"), ("mov ax, 1", "mov ds, 5"), ("inc bx", "def g {\nnop\n}"), ("mov ax, 1", "rep cmps byte"), ("mov ax, 1", "repe movs byte"),
+        # one undefined label used by several jumps (the diagnostic must name the first use, every time)
+        ("jnz lab", "jnz nolabel\njmp nolabel"), ("jnz lab", "jz gone\nloop gone\njmp gone\njc gone\njnz gone"),
+        ("call f", "jmp away\ncall f\njmp away\njz away\njmp away"), ("inc bx", "jmp deep\ninc bx\njz deep\nloop deep\njmp deep"),
         # a jump whose target is a procedure name (not a label), reached at run time
         ("jnz lab", "jnz f"), ("jnz lab", "jmp f"), ("jnz lab", "mov cx, 2\nloop f"), ("jnz lab", "mov cx, 0\njcxz f"), ("jnz lab", "JMP f"),
         ("call f", "call f\njmp late"), ("call f", "call start"), ("call f", "call v"),
@@ -920,6 +923,64 @@ def spell_pairs(g, thorough):
     g.spell = False
     return out
 
+SYN = {"shl": "sal", "repe": "repz", "repne": "repnz"}
+
+def canonical_interp(line):
+    """a source instruction written in its plainest form (lower case, decimal) -> the interpreter's spelling of the same
+    instruction, by the differences syntax.md documents: `seg [..]` is `seg:[..]`, `[b,i]` is `[b,i,0]`, OFFSET of a label
+    is its offset, SHL is SAL, REPE/REPNE are REPZ/REPNZ"""
+    t = line.strip()
+    t = re.sub(r"\b(es|cs|ss|ds)\s*\[", r"\1:[", t)
+    t = re.sub(r"\[\s*(bx|bp)\s*,\s*(si|di)\s*\]", r"[\1,\2,0]", t)
+    inv = {v: k for k, v in OFFSETS.items()}
+    t = re.sub(r"\boffset\s+(\w+)", lambda m: str(inv.get(m.group(1), 0)), t)
+    ws = t.split(" ", 1)
+    if ws and ws[0] in SYN:
+        t = SYN[ws[0]] + (" " + ws[1] if len(ws) > 1 else "")
+    return t
+
+def role_cases(g, thorough):
+    """every code-emitting alternative of the current grammar, one instruction per program, under a random spelling, together
+    with the SAME instruction in the interpreter's spelling derived from the plainest rendering of the same atoms"""
+    g.spell = True
+    out = []
+    alts = []
+    for name in g.reach("opcodes"):
+        nt = g.nts[name]
+        for alt in nt.alts:
+            if alt.action and "out.code.push" in alt.action and name != "procedure":
+                alts.append(alt)
+    reps = 8 if thorough else 2
+    for alt in alts:
+        fams = [None] * reps
+        for i, sy in enumerate(alt.symbols):
+            if sy.kind == "nt" and not sy.suffix and sy.value.startswith("quote") and g.table(sy.value) is not None:
+                fams = [(i, f) for f in sorted(g.groups(sy.value).values())] + fams
+                break
+        for fam in fams:
+            g.atoms = []
+            g.atom_vals = []
+            parts = []
+            for i, sy in enumerate(alt.symbols):
+                if fam is not None and i == fam[0]:
+                    parts.append(g.atom(fam[1]))
+                else:
+                    parts.append(g.render_sym(sy, 1))
+            line = g.join([p for p in parts if p is not None])
+            # plainest rendering: the lower-case member of a case family, the decimal form of a constant
+            def plain(m):
+                alts_ = g.atoms[int(m.group(1))]
+                low = [a for a in alts_ if a == a.lower() and not a.startswith("0x") and not a.startswith("0b") and not a.startswith("offset")]
+                return (low or alts_)[0]
+            canon = re.sub("\x01(\\d+)\x02", plain, line)
+            canon = re.sub("[\x03]", "", canon)
+            canon = re.sub("[\x04]", " ", canon)
+            body = PRELUDE + "start:\x04" + line + "\x04lab:\x04hlt\x04fin:\n"
+            s1 = g.render_atoms(body, random.Random(g.rng.random()))
+            out.append((re.sub(r";.*\n?", "\n", s1), canonical_interp(canon)))
+    g.spell = False
+    return out
+
 def operand_cases(rng, thorough):
     """C04 at source level, written from syntax.md and NOT from the grammar: every memory-operand shape x
     {no override, ES, CS, SS, DS} x base x index x displacement kind, inside a few instruction frames.
@@ -993,6 +1054,11 @@ def main():
             if i % nshards == shard:
                 strip = lambda t: re.sub(r";.*\n?", "\n", t)      # the driver's comment stripping (the library API gets stripped text)
                 sys.stdout.write("asm2 " + enc(strip(a)) + " " + enc(strip(b)) + " " + ("-" if not vals else ".".join(map(str, vals))) + "\n")
+        return
+    if group == "roles":
+        for i, (src, line) in enumerate(role_cases(g, thorough)):
+            if i % nshards == shard:
+                sys.stdout.write("role " + enc(src) + " " + enc(line) + "\n")
         return
     if group == "reuse":
         # C19: one parser object and one (cleared) context for two sources in a row, against fresh objects
